@@ -10,13 +10,24 @@ def part(ctx):
     rng = ctx.rng
     found = False
     hists, cases, payloads = {}, [], {}
+    over = {'beyond_uint16': 0, 'large_within_uint16': 0}
     for i in range(ctx.n(40, 500)):
         h = dbgen.History(rng, bits=rng.choice([16, 1024, 2 ** 32]))
         if rng.random() < 0.3:
             h.rand_from_array()
         else:
-            h.op_new(rng.choice(dbgen.KINDS), h.level)
-            h.op_add(h.live[-1], h.batch(h.live[-1], rng.choice([1, 2, 3, 4]), own=rng.random() < 0.7))
+            k0 = rng.choice(dbgen.KINDS)
+            h.op_new(k0, h.level)
+            if k0 == 'KCount' and rng.random() < 0.6:
+                # counts up to 65535 (COUNT_FP_DTYPE is uint16): folded sums both within and beyond the limit; beyond it the
+                # database fold wraps modulo 2^16 (model: ksum KCount) while Fingerprint.fold keeps the exact Python integer
+                fps = [dbgen.make_fp(rng, 'KCount', h.bits, h.level, h.rand_name(), dbgen.rand_props(rng, h.schema), big=True)
+                       for _ in range(rng.choice([1, 2, 3]))]
+                h.op_add(h.live[-1], fps)
+            else:
+                h.op_add(h.live[-1], h.batch(h.live[-1], rng.choice([1, 2, 3, 4]), own=rng.random() < 0.7))
+        if not h.live:
+            continue
         src = h.live[-1]
         d = h.pool[src]
         if d.fp_num == 0:
@@ -36,6 +47,16 @@ def part(ctx):
                 dd = h.pool[len(h.pool) - 1]
                 for j in range(d.fp_num):
                     s_o, f_o = fpgen.obs(d[j]), fpgen.obs(dd[j])
+                    if s_o['kind'] == 'KCount':
+                        sums = {}
+                        for col, v in s_o['cnt']:
+                            sums[col % nb] = sums.get(col % nb, 0) + v
+                        if any(v > 65535 for v in sums.values()):
+                            over['beyond_uint16'] += 1            # representability limit: compared with the Db model only (exact wrap)
+                            ctx.count(('c07db-overflow', str(s_o), nb), True)
+                            continue
+                        if any(v > 20000 for v in sums.values()):
+                            over['large_within_uint16'] += 1
                     key = 'c07db/%d/%d/%d' % (i, nb, j)
                     cases.append((key, 'result_eqb (fp_obs_close (Qmake 1 1000000000)) (fp_fold %s %s 0) (Ok %s)' % (fpgen.lit(s_o), core.zlit(nb), fpgen.lit(f_o))))
                     payloads[key] = {'source_row': fpgen.obs_json(s_o), 'bits': nb, 'db_fold_row': fpgen.obs_json(f_o)}
@@ -48,4 +69,5 @@ def part(ctx):
         hists['c07db-%d' % i] = h
     nbad = dbgen.check_histories(ctx, hists, 'C07 database fold histories', finding_key_of=lambda h, st: 'dbfold:model-vs-impl')
     nbad += core.compare_cases(ctx, cases, dbgen.IMPORTS, 'C07 database fold row = fingerprint fold', payloads, shard=200)
+    ctx.coverage.setdefault('input_distribution', {})['db_fold_count_sums'] = over if isinstance(ctx.coverage.get('input_distribution'), dict) else over
     return found or nbad > 0
